@@ -473,7 +473,7 @@ Ltac ssimp :=
      s_r s_file s_last s_use s_strp s_pse s_curr s_tgt
      do_append v_save_part set_save_part v_start_part
      P_SCHEME P_SCHEME_SEP P_USERNAME P_PASSWORD P_HOST_START P_HOST P_PORT P_PATH_PREFIX P_PATH P_QUERY P_FRAGMENT
-     Nat.eqb Nat.leb Nat.ltb andb orb negb kstart app].
+     Nat.eqb Nat.leb Nat.ltb andb orb negb kstart]; cbn [app].
 
 (* PORT and QUERY written into the middle of the URL: start_part, text, save_part *)
 Theorem setter_splice_simple ps n f c file k v :
@@ -714,4 +714,140 @@ Proof.
       replace (s_use (do_append x v)) with false
         by (unfold do_append, ser_start_part; repeat match goal with |- context [if ?b then _ else _] => destruct b end; reflexivity) end.
     exact Hsas.
+Qed.
+
+(* ---------------------------------------------------------------------------------- *)
+(* credentials: the '@' rules of url_setter::save_part                                *)
+(* ---------------------------------------------------------------------------------- *)
+
+Lemma is_empty_conc ps n f c k : PW ps n -> (1 <= k < n)%nat ->
+  r_is_empty (conc ps n f c) k = (len (nth k ps []) <=? kstart k).
+Proof.
+  intros HPW Hk. assert (Hnl : (n <= length ps)%nat) by (destruct HPW; lia).
+  assert (Hlen : length ps = 11%nat) by (destruct HPW; assumption).
+  destruct k as [|k']; [lia|]. unfold r_is_empty.
+  change (E (conc ps n f c) (S k')) with (en (conc ps n f c) (S k')).
+  change (E (conc ps n f c) k') with (en (conc ps n f c) k').
+  rewrite !en_conc by exact Hnl.
+  destruct (Nat.ltb_spec (S k') n); [|lia]. destruct (Nat.ltb_spec k' n); [|lia].
+  rewrite (pre_S (S k')) by lia.
+  destruct (N.leb_spec (pre (S k') ps + len (nth (S k') ps [])) (pre (S k') ps + kstart (S k')));
+  destruct (N.leb_spec (len (nth (S k') ps [])) (kstart (S k'))); try lia; reflexivity.
+Qed.
+
+Definition no_creds (ps : list str) : bool :=
+  (len (nth P_USERNAME ps []) <=? 0) && (len (nth P_PASSWORD ps []) <=? 1).
+
+Lemma has_credentials_conc ps n f c : PW ps n -> (4 <= n)%nat ->
+  has_credentials (conc ps n f c) = negb (no_creds ps).
+Proof.
+  intros HPW Hn. unfold has_credentials, r_has_credentials, no_creds.
+  rewrite !is_empty_conc by (auto; unfold P_USERNAME, P_PASSWORD; lia).
+  unfold P_USERNAME, P_PASSWORD, kstart.
+  destruct (len (nth 2 ps []) <=? 0); destruct (len (nth 3 ps []) <=? 1); reflexivity.
+Qed.
+
+(* what the Standard's username setter asks of the pieces: the new name, and "@" present exactly when there
+   are credentials afterwards *)
+Definition username_pieces (ps : list str) (v : str) : list str :=
+  match v with
+  | _ :: _ => if no_creds ps then splice ps P_USERNAME P_HOST_START (v ++ [64]) (len v) else setp ps P_USERNAME v
+  | [] => if len (nth P_PASSWORD ps []) <=? 1 then splice ps P_USERNAME P_HOST_START [] 0 else setp ps P_USERNAME []
+  end.
+
+Theorem setter_username ps n f c file v :
+  PW ps n -> (6 <= n)%nat -> nth P_HOST ps [] <> [] ->
+  let s1 := run true (init_sst (conc ps n f c) file) [OStartPart P_USERNAME; OAppend v; OSavePart] in
+  s_r s1 = conc (username_pieces ps v) n f c /\ s_strp s1 = [].
+Proof.
+  intros HPW Hn6 Hhost.
+  assert (Hlen : length ps = 11%nat) by (destruct HPW; assumption).
+  assert (Hnl : (n <= length ps)%nat) by (destruct HPW; lia).
+  assert (Hen : en (conc ps n f c) P_USERNAME = pre 3 ps).
+  { rewrite en_conc by exact Hnl. unfold P_USERNAME. destruct (Nat.ltb_spec 2 n); [reflexivity|lia]. }
+  pose proof (pre_S_pos ps n 2 HPW) as Hpos.
+  assert (Hfollow : pre 3 ps < len (concat ps)).
+  { pose proof (pre_le ps 3 5 ltac:(lia)). pose proof (pre_S 5 ps ltac:(lia)) as H6.
+    pose proof (pre_le ps 6 11 ltac:(lia)) as H11. rewrite (pre_all ps 11) in H11 by lia.
+    unfold P_HOST in Hhost. destruct (nth 5 ps []) eqn:E5; [exfalso; apply Hhost; reflexivity|].
+    rewrite len_cons in H6. lia. }
+  cbn [run fold_left step]. unfold v_start_part, set_start_part.
+  cbn [init_sst w_curr s_r]. rewrite Hen.
+  destruct (N.eqb_spec (pre 3 ps) 0) as [E|_]; [lia|]. cbn [negb].
+  replace (len (r_norm (conc ps n f c))) with (len (concat ps)) by reflexivity.
+  destruct (N.ltb_spec (pre 3 ps) (len (concat ps))) as [_|E]; [|lia].
+  ssimp. cbv beta iota zeta delta [P_USERNAME P_PASSWORD P_HOST_START] in *.
+  rewrite has_credentials_conc by (auto; lia).
+  rewrite (is_empty_conc ps n f c 3 HPW) by lia. unfold kstart.
+  unfold username_pieces, replace_part1. cbv beta iota zeta delta [P_USERNAME P_PASSWORD P_HOST_START].
+  destruct v as [|x v].
+  - (* empty value *)
+    change (len [] <=? 0) with true. cbn [andb negb].
+    destruct (len (nth 3 ps []) <=? 1) eqn:Epw.
+    + destruct (replace_part_conc ps n f c 2 4 [] 0 HPW ltac:(lia) ltac:(lia) ltac:(intro; cbn; lia)) as [Hrp _].
+      rewrite Hrp. split; reflexivity.
+    + destruct (replace_part_conc ps n f c 2 2 [] 0 HPW ltac:(lia) ltac:(lia) ltac:(intro; lia)) as [Hrp _].
+      rewrite Hrp. split; reflexivity.
+  - assert (Hne : (len (x :: v) <=? 0) = false) by (rewrite len_cons; apply N.leb_gt; lia).
+    rewrite Hne. cbn [andb negb].
+    destruct (no_creds ps) eqn:Enc; cbn [negb].
+    + try change (x :: v ++ [64]) with ((x :: v) ++ [64]).
+      replace (len ((x :: v) ++ [64]) - 1) with (len (x :: v)) by (rewrite len_app; change (len [64]) with 1; lia).
+      destruct (replace_part_conc ps n f c 2 4 ((x :: v) ++ [64]) (len (x :: v)) HPW ltac:(lia) ltac:(lia)
+                  ltac:(intro; rewrite len_app; lia)) as [Hrp _].
+      rewrite Hrp. split; reflexivity.
+    + destruct (replace_part_conc ps n f c 2 2 (x :: v) 0 HPW ltac:(lia) ltac:(lia) ltac:(intro; lia)) as [Hrp _].
+      rewrite Hrp. split; reflexivity.
+Qed.
+
+Definition password_pieces (ps : list str) (v : str) : list str :=
+  match v with
+  | _ :: _ => if no_creds ps then splice ps P_PASSWORD P_HOST_START ((58 :: v) ++ [64]) (len (58 :: v))
+              else setp ps P_PASSWORD (58 :: v)
+  | [] => if len (nth P_USERNAME ps []) <=? 0 then splice ps P_PASSWORD P_HOST_START [] 0 else setp ps P_PASSWORD []
+  end.
+
+Theorem setter_password ps n f c file v :
+  PW ps n -> (6 <= n)%nat -> nth P_HOST ps [] <> [] ->
+  let s1 := run true (init_sst (conc ps n f c) file) [OStartPart P_PASSWORD; OAppend v; OSavePart] in
+  s_r s1 = conc (password_pieces ps v) n f c /\ s_strp s1 = [].
+Proof.
+  intros HPW Hn6 Hhost.
+  assert (Hlen : length ps = 11%nat) by (destruct HPW; assumption).
+  assert (Hnl : (n <= length ps)%nat) by (destruct HPW; lia).
+  assert (Hen : en (conc ps n f c) P_PASSWORD = pre 4 ps).
+  { rewrite en_conc by exact Hnl. unfold P_PASSWORD. destruct (Nat.ltb_spec 3 n); [reflexivity|lia]. }
+  pose proof (pre_S_pos ps n 3 HPW) as Hpos.
+  assert (Hfollow : pre 4 ps < len (concat ps)).
+  { pose proof (pre_le ps 4 5 ltac:(lia)). pose proof (pre_S 5 ps ltac:(lia)) as H6.
+    pose proof (pre_le ps 6 11 ltac:(lia)) as H11. rewrite (pre_all ps 11) in H11 by lia.
+    unfold P_HOST in Hhost. destruct (nth 5 ps []) eqn:E5; [exfalso; apply Hhost; reflexivity|].
+    rewrite len_cons in H6. lia. }
+  cbn [run fold_left step]. unfold v_start_part, set_start_part.
+  cbn [init_sst w_curr s_r]. rewrite Hen.
+  destruct (N.eqb_spec (pre 4 ps) 0) as [E|_]; [lia|]. cbn [negb].
+  replace (len (r_norm (conc ps n f c))) with (len (concat ps)) by reflexivity.
+  destruct (N.ltb_spec (pre 4 ps) (len (concat ps))) as [_|E]; [|lia].
+  ssimp. cbv beta iota zeta delta [P_USERNAME P_PASSWORD P_HOST_START] in *.
+  rewrite has_credentials_conc by (auto; lia).
+  rewrite (is_empty_conc ps n f c 2 HPW) by lia. unfold kstart.
+  unfold password_pieces, replace_part1. cbv beta iota zeta delta [P_USERNAME P_PASSWORD P_HOST_START].
+  destruct v as [|x v].
+  - change (len [58] <=? 1) with true. cbn [andb negb].
+    destruct (len (nth 2 ps []) <=? 0) eqn:Eu.
+    + destruct (replace_part_conc ps n f c 3 4 [] 0 HPW ltac:(lia) ltac:(lia) ltac:(intro; cbn; lia)) as [Hrp _].
+      rewrite Hrp. split; reflexivity.
+    + destruct (replace_part_conc ps n f c 3 3 [] 0 HPW ltac:(lia) ltac:(lia) ltac:(intro; lia)) as [Hrp _].
+      rewrite Hrp. split; reflexivity.
+  - assert (Hne : (len (58 :: x :: v) <=? 1) = false) by (rewrite !len_cons; apply N.leb_gt; lia).
+    rewrite Hne. cbn [andb negb].
+    destruct (no_creds ps) eqn:Enc; cbn [negb].
+    + change (58 :: (x :: v) ++ [64]) with ((58 :: x :: v) ++ [64]).
+      replace (len ((58 :: x :: v) ++ [64]) - 1) with (len (58 :: x :: v))
+        by (rewrite len_app; change (len [64]) with 1; lia).
+      destruct (replace_part_conc ps n f c 3 4 ((58 :: x :: v) ++ [64]) (len (58 :: x :: v)) HPW ltac:(lia) ltac:(lia)
+                  ltac:(intro; rewrite len_app; lia)) as [Hrp _].
+      rewrite Hrp. split; reflexivity.
+    + destruct (replace_part_conc ps n f c 3 3 (58 :: x :: v) 0 HPW ltac:(lia) ltac:(lia) ltac:(intro; lia)) as [Hrp _].
+      rewrite Hrp. split; reflexivity.
 Qed.
